@@ -142,10 +142,19 @@ func TestVerifC06(t *testing.T) {
 	r.Rule("per (ineligibility family as_loop | originator_id | cluster_loop | empty_as_path x iBGP/eBGP, and OTC for each admissible role pair + roles off on eBGP) x add-path RX off/on: " +
 		"BFS over all histories of Announce(pfx, eligible | family's ineligible variants | eligible look-alikes, pathID) / Withdraw / Flush / ReplaceFilterChain(accept-all | reject-all | set LOCAL_PREF 200 | thorough: + set next hop; any order) / " +
 		"Register+Unregister of the Loc-RIB (initially unregistered) and of a recording client, to closure of the canonical state; oracle after every transition and on every call the recording client receives; " +
-		"evaluations = explorations, non-trivial = explorations run to closure")
+		"plus every schedule (<= 3 preemptions, thorough 4) of an ineligible announcement replacing an eligible path while a second client registers; evaluations = explorations, non-trivial = explorations run to closure")
 	r.Require(zvC06Required...)
 	all := append(zvC06Configs(false), zvC06Configs(true)...)
 	if r.IsReplay() {
+		var cc zvC06ConcCase
+		r.ReplayCase(&cc)
+		if cc.Conc {
+			zvC06ConcRun(r, cc, append([]int{}, cc.Schedule...))
+			for _, k := range zvC06Required {
+				r.Count(k, 1)
+			}
+			return
+		}
 		zvReplay(r, all)
 		for _, k := range zvC06Required {
 			r.Count(k, 1)
@@ -176,4 +185,5 @@ func TestVerifC06(t *testing.T) {
 		}
 		zvExplore(r, cfgs[i], 0)
 	}
+	zvC06Concurrent(r, len(order))
 }
